@@ -128,7 +128,13 @@ def main(tier):
             scn = RC.scenario_from_graph(g, placement=k, jobs=jobs, git_tpl=tpl,
                                          sched={"mode": "script", "choices": []}, force_git=(k % 5 == 1 and not g.get("again")))
             if k % 4 in (1, 2) and k % 3 == 0:
-                RC.rename_local(scn)      # the same bare name in several packages (//p:u1, //:u1)
+                # the same bare name in several packages (//p:u1, //:u1) - unless a combine() would then list two
+                # dependencies with the same NAME: that definition is refused when it is loaded (C15 / C18), it is no instance
+                # of the planner's model any more
+                trial = RC.rename_local(json.loads(json.dumps(scn)))
+                if not any(t["kind"] == "combine" and len({d.rsplit(":", 1)[1] for d in t["deps"]}) < len(t["deps"])
+                           for t in trial["project"]["tasks"]):
+                    RC.rename_local(scn)
             scns.append(scn)
         # the same instances with one dependency listed TWICE under two spellings (":x" and "//pkg:x", or with a trailing
         # slash): such a definition must be rejected, and in any case no task may run twice
